@@ -111,7 +111,7 @@ def main():
             else:
                 continue
             lines.append("\t".join(["de.model.text", p, "w1252", sh, hx(t), aux]))
-    if len(sys.argv) > 1:
+    if len(sys.argv) > 1 and not sys.argv[1].startswith("-"):
         open(sys.argv[1], "w").write("# hand-made corner cases of the text serde walks (generated by the b_tde corpus script: text, shape, path + the implementation's tape / reader tokens)\n" + "\n".join(lines) + "\n")
     i = vlib.run_impl(lines); m = vlib.run_model(lines)
     bad = 0
